@@ -122,8 +122,103 @@ def cases(draw):
             'groups': groups}
 
 
+# The task running the simulation is cancelled directly (what asyncio.run() does on Ctrl-C) while blocks
+# are still in their asynchronous initialisation; each init_async() honours the interruption, cleans up
+# for a moment first, or turns it into an ordinary failure ("failures of asynchronous initialisation are
+# only logged", "a cancellation counts as a normal stop").
+def _mk_taskcancel(blocks, entry, t):
+    # The routine the simulator is waiting for at that moment (largest init_timeout first, creation order
+    # among equals) must let the interruption through: a coroutine that answers its cancellation with
+    # another exception swallows the cancellation of whoever awaits it - the request then never reaches
+    # the simulator, which is asyncio's rule, not edzed's.
+    first = max(range(len(blocks)), key=lambda i: (blocks[i]['timeout'], -i))
+    if blocks[first]['react'] == 'exc':
+        blocks[first] = dict(blocks[first], react='slow')
+    return {'k': 'taskcancel', 'blocks': blocks, 'entry': entry, 't': t}
+
+
+taskcancel_cases = st.builds(
+    _mk_taskcancel,
+    st.lists(st.fixed_dictionaries({'timeout': st.sampled_from([5, 10, 20]),
+                                    'delay': st.sampled_from([3, 8, 30]),
+                                    'react': st.sampled_from(['honour', 'slow', 'exc', 'exc'])}),
+             min_size=1, max_size=4),
+    st.sampled_from(['run', 'run_forever']), st.sampled_from([0.0, 0.3, 0.3, 1.0, 40.0]))
+
+
 def strategy(tier):
-    return cases()
+    return st.integers(0, 9).flatmap(lambda i: taskcancel_cases if i == 0 else cases())
+
+
+class SlowInit(edzed.AddonAsync, edzed.SBlock):
+    async def init_async(self):
+        try:
+            await asyncio.sleep(self.x_cfg['delay'])
+        except asyncio.CancelledError:
+            if self.x_cfg['react'] == 'slow':
+                await asyncio.sleep(0.4)
+            elif self.x_cfg['react'] == 'exc':
+                raise RuntimeError('init_async: interrupted') from None
+            raise
+        self.set_output('async')
+
+    def init_from_value(self, value):
+        self.set_output(value)
+
+
+def exec_taskcancel(case):
+    res = Result()
+    obs = {}
+
+    async def scenario(loop):
+        harness.reset()
+        circuit = edzed.get_circuit()
+        for i, cfg in enumerate(case['blocks']):
+            SlowInit(f'a{i}', x_cfg=cfg, initdef='default', init_timeout=float(cfg['timeout']))
+        coro = edzed.run() if case['entry'] == 'run' else circuit.run_forever()
+        runner = asyncio.create_task(coro)
+        await asyncio.sleep(case['t'] + 0.01)
+        obs['ready_before'] = circuit.is_ready()
+        obs['done_before'] = runner.done()
+        runner.cancel()
+        try:
+            obs['result'] = ['ret', repr(await runner)]
+        except asyncio.CancelledError:
+            obs['result'] = ['cancelled', None]
+        except Exception as err:
+            obs['result'] = ['exc', repr(err)]
+        obs['error'] = harness.exc_name(circuit.error)
+        obs['ready_after'] = circuit.is_ready()
+        try:
+            await circuit.shutdown()
+            obs['shutdown'] = 'returned'
+        except BaseException as err:
+            obs['shutdown'] = repr(err)
+        await harness.quiesce(loop)
+        obs['pending'] = [t.get_name() for t in asyncio.all_tasks(loop)
+                          if t is not asyncio.current_task() and not t.done()]
+
+    harness.run_case(scenario)
+    tag = f"task running {case['entry']}() cancelled at t={case['t']}: "
+    if obs['done_before']:
+        res.fail('C09.ended_early', tag + f"the simulation had ended by itself: {obs['result']}")
+        return res
+    if obs['result'][0] == 'exc' or (obs['result'][0] == 'ret' and obs['result'][1] != 'None'):
+        res.fail('C09.cancel_not_normal_stop', tag + f"outcome {obs['result']}")
+    if obs['error'] != 'CancelledError':
+        res.fail('C09.circuit_error', tag + f"Circuit.error is {obs['error']}, expected the cancellation")
+    if obs['ready_after']:
+        res.fail('C09.ready_after_stop', tag + "is_ready() still true")
+    if obs['shutdown'] != 'returned':
+        res.fail('C09.shutdown_raised', tag + f"shutdown() raised {obs['shutdown']}")
+    if obs['pending']:
+        res.fail('C09.task_left', tag + f"pending tasks {obs['pending']}")
+    longest = max(min(b['timeout'], b['delay']) for b in case['blocks'])
+    during_init = case['t'] < longest
+    res.nontrivial = during_init and len(case['blocks']) >= 2 and any(b['react'] != 'honour' for b in case['blocks'])
+    res.classes = ['run task cancelled directly', 'during asynchronous initialisation' if during_init else 'while running']
+    res.outcome = {'result': obs['result'][0]}
+    return res
 
 
 ERR_OF = {'handler': ('EdzedCircuitError', 'E1'), 'abort': ('E3', None),
@@ -171,6 +266,8 @@ def model(case):
 
 
 def execute(case):
+    if case.get('k') == 'taskcancel':
+        return exec_taskcancel(case)
     res = Result()
     obs = {'ready_after': []}
 
